@@ -51,18 +51,26 @@ func (c *capTB) Failed() bool {
 	defer c.mu.Unlock()
 	return c.fatal || c.errors > 0
 }
-func (c *capTB) Fatal(a ...any)            { c.setFatal(); c.note("fatal", fmt.Sprint(a...)); runtime.Goexit() }
-func (c *capTB) Fatalf(f string, a ...any) { c.setFatal(); c.note("fatal", fmt.Sprintf(f, a...)); runtime.Goexit() }
-func (c *capTB) FailNow()                  { c.setFatal(); runtime.Goexit() }
-func (c *capTB) Skip(a ...any)             { c.setSkip(); c.note("skip", fmt.Sprint(a...)); runtime.Goexit() }
-func (c *capTB) Skipf(f string, a ...any)  { c.setSkip(); c.note("skip", fmt.Sprintf(f, a...)); runtime.Goexit() }
-func (c *capTB) SkipNow()                  { c.setSkip(); runtime.Goexit() }
+func (c *capTB) Fatal(a ...any) { c.setFatal(); c.note("fatal", fmt.Sprint(a...)); runtime.Goexit() }
+func (c *capTB) Fatalf(f string, a ...any) {
+	c.setFatal()
+	c.note("fatal", fmt.Sprintf(f, a...))
+	runtime.Goexit()
+}
+func (c *capTB) FailNow()      { c.setFatal(); runtime.Goexit() }
+func (c *capTB) Skip(a ...any) { c.setSkip(); c.note("skip", fmt.Sprint(a...)); runtime.Goexit() }
+func (c *capTB) Skipf(f string, a ...any) {
+	c.setSkip()
+	c.note("skip", fmt.Sprintf(f, a...))
+	runtime.Goexit()
+}
+func (c *capTB) SkipNow() { c.setSkip(); runtime.Goexit() }
 func (c *capTB) Skipped() bool {
 	c.mu.Lock()
 	defer c.mu.Unlock()
 	return c.skipped
 }
-func (c *capTB) Cleanup(f func()) { c.mu.Lock(); c.cleanups = append(c.cleanups, f); c.mu.Unlock() }
+func (c *capTB) Cleanup(f func())      { c.mu.Lock(); c.cleanups = append(c.cleanups, f); c.mu.Unlock() }
 func (c *capTB) Setenv(string, string) {}
 func (c *capTB) TempDir() string       { return "" }
 
